@@ -276,7 +276,9 @@ def oracle(case, status, res):
                     k, v = bad[0]
                     return (f"negative amplitude {v!r} for qubit {qid} in step {k} (mid-point {mids[k]!r}, "
                             f"last sample at {T - 1}); {len(bad)} negative rows")
-            if not mids:
+            if not mids or len(y) != len(knots):
+                # malformed sample lengths: the clean code raises; if a changed code accepts them the
+                # correspondence (status mismatch) reports it — no reference exists for this column
                 continue
             ref = PchipInterpolator(knots, np.array(y), extrapolate=True)(np.array(mids)).tolist()
             sc0 = max(abs(v) for v in y) + 1e-300
